@@ -33,6 +33,14 @@ pub fn generate(tier: &str, rng: &mut Rng) -> Vec<Spec> {
         }
         v.push(Spec::new("mean").with("N", n).with("ty", if int { "int" } else { "rat" }).with("xs", join_rats(&xs)));
     }
+    // long runs (internal re-synchronisation or drift only shows after hundreds of samples)
+    for i in 0..(if thorough { 40 } else { 10 }) {
+        let n = [1usize, 2, 4, 8, 3, 16][i % 6];
+        let len = rng.range(280, if thorough { 2400 } else { 700 }) as usize;
+        let int = i % 2 == 0;
+        let xs: Vec<Rat> = (0..len).map(|k| if k % 97 == 0 { Rat::int(rng.range(-50, 50)) } else { Rat::new(rng.range(-6, 6) as i128, if int { 1 } else { rng.range(1, 3) as i128 }) }).collect();
+        v.push(Spec::new("mean").with("N", n).with("ty", if int { "int" } else { "rat" }).with("xs", join_rats(&xs)));
+    }
     v
 }
 
@@ -55,7 +63,7 @@ fn run_int<const N: usize>(xs: &[i64], stats: &mut Stats) -> Outcome {
 
 pub fn exec(s: &Spec, stats: &mut Stats) -> Outcome {
     let n = s.usize("N");
-    stats.bump(format!("N:{}", n)); stats.bump(format!("len:{}", s.rats("xs").len() / 10 * 10));
+    stats.bump(format!("N:{}", n)); { let l = s.rats("xs").len(); stats.bump(if l >= 256 { "len:>=256".to_string() } else { format!("len:{}", l / 10 * 10) }); }
     if s.get("ty") == "int" {
         let xs: Vec<i64> = s.rats("xs").iter().map(|r| r.n as i64).collect();
         dispatch_n!(n, run_int, (&xs, stats); 1 2 3 4 5 6 7 8 16)
